@@ -1,5 +1,391 @@
 import XmpModel.TestLoad
-/-! Helper lemmas for the TestLoad model (C11). -/
+/-! Helper lemmas for the TestLoad model (C11): C strings, trimming, the canonical title
+form, and the two table walks. -/
 namespace Xmp.TestLoad
+
+/-! ## characters -/
+
+theorem isPrint_ne_zero {c : UInt8} (h : isPrint c = true) : c ≠ 0 := by
+  intro hc
+  subst hc
+  simp [isPrint] at h
+
+theorem dotCh_ne_zero (c : UInt8) : dotCh c ≠ 0 := by
+  unfold dotCh
+  split
+  · rename_i h; exact isPrint_ne_zero h
+  · decide
+
+theorem spCh_ne_zero (c : UInt8) : spCh c ≠ 0 := by
+  unfold spCh
+  split
+  · rename_i h; exact isPrint_ne_zero h
+  · decide
+
+theorem isPrint_dotCh (c : UInt8) : isPrint (dotCh c) = true := by
+  unfold dotCh
+  split
+  · assumption
+  · decide
+
+theorem isPrint_spCh (c : UInt8) : isPrint (spCh c) = true := by
+  unfold spCh
+  split
+  · assumption
+  · decide
+
+theorem spCh_of_isPrint {c : UInt8} (h : isPrint c = true) : spCh c = c := by
+  simp [spCh, h]
+
+theorem canonCh_space : canonCh 32 = 32 := by decide
+
+theorem canonCh_dotCh (c : UInt8) : canonCh (dotCh c) = canonCh c := by
+  unfold dotCh
+  split
+  · rfl
+  · rename_i h
+    have : canonCh c = 32 := by simp [canonCh, h]
+    rw [this]; decide
+
+theorem canonCh_spCh (c : UInt8) : canonCh (spCh c) = canonCh c := by
+  unfold spCh
+  split
+  · rfl
+  · rename_i h
+    have : canonCh c = 32 := by simp [canonCh, h]
+    rw [this]; decide
+
+/-! ## C strings -/
+
+theorem cstr_of_no_zero : ∀ (l : Bytes), (∀ c ∈ l, c ≠ 0) → cstr l = l
+  | [], _ => rfl
+  | c :: cs, h => by
+    have hc : c ≠ 0 := h c (by simp)
+    have := cstr_of_no_zero cs (fun x hx => h x (by simp [hx]))
+    simp [cstr, hc, this]
+
+theorem cstr_no_zero : ∀ (l : Bytes), ∀ c ∈ cstr l, c ≠ 0
+  | [], _, h => by simp [cstr] at h
+  | x :: xs, c, h => by
+    unfold cstr at h
+    split at h
+    · simp at h
+    · rename_i hx
+      rcases List.mem_cons.mp h with rfl | h'
+      · exact hx
+      · exact cstr_no_zero xs c h'
+
+theorem cstr_idem (l : Bytes) : cstr (cstr l) = cstr l :=
+  cstr_of_no_zero _ (cstr_no_zero l)
+
+theorem cstr_length_le : ∀ (l : Bytes), (cstr l).length ≤ l.length
+  | [] => by simp [cstr]
+  | x :: xs => by
+    unfold cstr
+    split
+    · simp
+    · simp; exact cstr_length_le xs
+
+/-- a buffer with a NUL in it holds a C string strictly shorter than the buffer -/
+theorem cstr_length_lt_of_hasNul : ∀ (l : Bytes), hasNul l = true → (cstr l).length < l.length
+  | [], h => by simp [hasNul] at h
+  | x :: xs, h => by
+    unfold cstr
+    split
+    · simp
+    · rename_i hx
+      have : hasNul xs = true := by
+        simp only [hasNul, List.any_cons, Bool.or_eq_true, decide_eq_true_eq] at h ⊢
+        rcases h with h | h
+        · exact absurd h hx
+        · simpa [hasNul] using h
+      simp; exact cstr_length_lt_of_hasNul xs this
+
+theorem hasNul_append_left {a b : Bytes} (h : hasNul a = true) : hasNul (a ++ b) = true := by
+  simp only [hasNul, List.any_append, Bool.or_eq_true] at *
+  exact Or.inl h
+
+theorem hasNul_append_right {a b : Bytes} (h : hasNul b = true) : hasNul (a ++ b) = true := by
+  simp only [hasNul, List.any_append, Bool.or_eq_true] at *
+  exact Or.inr h
+
+theorem cstr_zero_cons (l : Bytes) : cstr (0 :: l) = [] := by simp [cstr]
+
+theorem cstr_append_zero : ∀ (a b : Bytes), (∀ c ∈ a, c ≠ 0) → cstr (a ++ 0 :: b) = a
+  | [], b, _ => by simp [cstr]
+  | x :: xs, b, h => by
+    have hx : x ≠ 0 := h x (by simp)
+    have := cstr_append_zero xs b (fun c hc => h c (by simp [hc]))
+    simp [cstr, hx, this]
+
+/-! ## trimming -/
+
+theorem trimR_cons (c : UInt8) (cs : Bytes) :
+    trimR (c :: cs) = if (trimR cs).isEmpty ∧ c = 32 then [] else c :: trimR cs := rfl
+
+theorem trimR_prefix : ∀ (s : Bytes), trimR s <+: s
+  | [] => by simp [trimR]
+  | c :: cs => by
+    rw [trimR_cons]
+    split
+    · exact List.nil_prefix
+    · exact (List.cons_prefix_cons).mpr ⟨rfl, trimR_prefix cs⟩
+
+theorem trimR_length_le (s : Bytes) : (trimR s).length ≤ s.length :=
+  (trimR_prefix s).length_le
+
+theorem trimR_mem {s : Bytes} {c : UInt8} (h : c ∈ trimR s) : c ∈ s :=
+  (trimR_prefix s).subset h
+
+theorem trimR_idem : ∀ (s : Bytes), trimR (trimR s) = trimR s
+  | [] => rfl
+  | c :: cs => by
+    rw [trimR_cons]
+    split
+    · rfl
+    · rename_i h
+      rw [trimR_cons, trimR_idem cs]
+      simp only [h, if_false]
+
+/-- trimming commutes with a character map that keeps spaces -/
+theorem trimR_map_trimR (f : UInt8 → UInt8) (hf : f 32 = 32) :
+    ∀ (s : Bytes), trimR ((trimR s).map f) = trimR (s.map f)
+  | [] => rfl
+  | c :: cs => by
+    have ih := trimR_map_trimR f hf cs
+    rw [trimR_cons]
+    split
+    · rename_i h
+      obtain ⟨h1, h2⟩ := h
+      have e : trimR cs = [] := List.isEmpty_iff.mp h1
+      rw [e] at ih
+      simp only [List.map_nil, List.map_cons] at ih ⊢
+      rw [trimR_cons, ← ih, h2, hf]
+      simp [trimR]
+    · simp only [List.map_cons]
+      rw [trimR_cons, trimR_cons, ih]
+
+/-- the last character of a trimmed string is not a space -/
+theorem trimR_getLast_ne_space : ∀ (s : Bytes) (h : trimR s ≠ []), (trimR s).getLast h ≠ 32
+  | [], h => absurd rfl h
+  | c :: cs, h => by
+    have e := trimR_cons c cs
+    by_cases hc : (trimR cs).isEmpty ∧ c = 32
+    · simp [e, hc] at h
+    · have e' : trimR (c :: cs) = c :: trimR cs := by simp [e, hc]
+      by_cases ht : trimR cs = []
+      · have : trimR (c :: cs) = [c] := by rw [e', ht]
+        simp only [this, List.getLast_singleton]
+        intro h32
+        exact hc ⟨by simp [ht], h32⟩
+      · have := trimR_getLast_ne_space cs ht
+        simp only [e', List.getLast_cons ht]
+        exact this
+
+/-- a string that does not end in a space is left alone -/
+theorem trimR_eq_self_of_getLast : ∀ (s : Bytes), (∀ h : s ≠ [], s.getLast h ≠ 32) → trimR s = s
+  | [], _ => rfl
+  | c :: cs, hl => by
+    rw [trimR_cons]
+    by_cases hcs : cs = []
+    · subst hcs
+      have : c ≠ 32 := by simpa using hl (by simp)
+      simp [trimR, this]
+    · have ih := trimR_eq_self_of_getLast cs (fun h => by
+        have := hl (by simp)
+        rwa [List.getLast_cons h] at this)
+      rw [ih]
+      simp [hcs]
+
+/-! ## the two string normalisations and the canonical form -/
+
+theorem copyAdjust_printable (r : Bytes) (n : Nat) : ∀ c ∈ copyAdjust r n, isPrint c = true := by
+  intro c hc
+  have := trimR_mem hc
+  obtain ⟨x, _, rfl⟩ := List.mem_map.mp this
+  exact isPrint_dotCh x
+
+theorem adjustString_printable (s : Bytes) : ∀ c ∈ adjustString s, isPrint c = true := by
+  intro c hc
+  have := trimR_mem hc
+  obtain ⟨x, _, rfl⟩ := List.mem_map.mp this
+  exact isPrint_spCh x
+
+theorem map_spCh_of_printable : ∀ (l : Bytes), (∀ c ∈ l, isPrint c = true) → l.map spCh = l
+  | [], _ => rfl
+  | c :: cs, h => by
+    simp only [List.map_cons]
+    rw [spCh_of_isPrint (h c (by simp)), map_spCh_of_printable cs (fun x hx => h x (by simp [hx]))]
+
+theorem canon_trimR_map (f : UInt8 → UInt8) (hz : ∀ c, f c ≠ 0) (hc : ∀ c, canonCh (f c) = canonCh c)
+    (s : Bytes) : canon (trimR (s.map f)) = trimR (s.map canonCh) := by
+  unfold canon
+  have nz : ∀ c ∈ trimR (s.map f), c ≠ 0 := by
+    intro c h
+    obtain ⟨x, _, rfl⟩ := List.mem_map.mp (trimR_mem h)
+    exact hz x
+  rw [cstr_of_no_zero _ nz, trimR_map_trimR canonCh canonCh_space, List.map_map]
+  congr 1
+  apply List.map_congr_left
+  intro a _
+  exact hc a
+
+theorem canon_copyAdjust (r : Bytes) (n : Nat) : canon (copyAdjust r n) = canon (r.take n) := by
+  unfold copyAdjust
+  rw [canon_trimR_map dotCh dotCh_ne_zero canonCh_dotCh]
+  rfl
+
+theorem canon_adjustString (s : Bytes) : canon (adjustString s) = canon s := by
+  unfold adjustString
+  rw [canon_trimR_map spCh spCh_ne_zero canonCh_spCh]
+  rfl
+
+theorem canon_cstr (s : Bytes) : canon (cstr s) = canon s := by
+  unfold canon
+  rw [cstr_idem]
+
+/-! ## buffers -/
+
+theorem zeros_length (n : Nat) : (zeros n).length = n := by simp [zeros]
+
+theorem hasNul_zeros {n : Nat} (h : 0 < n) : hasNul (zeros n) = true := by
+  cases n with
+  | zero => omega
+  | succ k => simp [zeros, hasNul, List.replicate_succ]
+
+theorem cstr_append_zeros (a : Bytes) (n : Nat) (b : Bytes) (ha : ∀ c ∈ a, c ≠ 0) (hn : 0 < n) :
+    cstr (a ++ zeros n ++ b) = a := by
+  cases n with
+  | zero => omega
+  | succ k =>
+    have : a ++ zeros (k + 1) ++ b = a ++ 0 :: (zeros k ++ b) := by
+      simp [zeros, List.replicate_succ]
+    rw [this, cstr_append_zero a _ ha]
+
+theorem copyAdjust_length_le (r : Bytes) (n : Nat) : (copyAdjust r n).length ≤ n := by
+  unfold copyAdjust
+  calc (trimR ((cstr (r.take n)).map dotCh)).length
+      ≤ ((cstr (r.take n)).map dotCh).length := trimR_length_le _
+    _ = (cstr (r.take n)).length := by simp
+    _ ≤ (r.take n).length := cstr_length_le _
+    _ ≤ n := by simp [List.length_take]; omega
+
+theorem copyAdjustBuf_length (r : Bytes) (n : Nat) : (copyAdjustBuf r n).length = n + 1 := by
+  have := copyAdjust_length_le r n
+  simp only [copyAdjustBuf, List.length_append, zeros_length]
+  omega
+
+/-- the buffer `libxmp_copy_adjust` leaves holds exactly the string-level result -/
+theorem cstr_copyAdjustBuf (r : Bytes) (n : Nat) : cstr (copyAdjustBuf r n) = copyAdjust r n := by
+  have hl := copyAdjust_length_le r n
+  have nz : ∀ c ∈ copyAdjust r n, c ≠ 0 := fun c hc => isPrint_ne_zero (copyAdjust_printable r n c hc)
+  have := cstr_append_zeros (copyAdjust r n) (n + 1 - (copyAdjust r n).length) [] nz (by omega)
+  simpa [copyAdjustBuf] using this
+
+theorem adjustString_length_le (b : Bytes) : (adjustString b).length ≤ (cstr b).length := by
+  unfold adjustString
+  calc _ ≤ ((cstr b).map spCh).length := trimR_length_le _
+    _ = _ := by simp
+
+theorem adjustStringBuf_length (b : Bytes) : (adjustStringBuf b).length = b.length := by
+  have h1 := adjustString_length_le b
+  have h2 := cstr_length_le b
+  simp only [adjustStringBuf, List.length_append, zeros_length, List.length_drop]
+  omega
+
+/-- on a NUL-terminated buffer `libxmp_adjust_string` leaves exactly the string-level result -/
+theorem cstr_adjustStringBuf (b : Bytes) (h : hasNul b = true) :
+    cstr (adjustStringBuf b) = adjustString b := by
+  have nz : ∀ c ∈ adjustString b, c ≠ 0 := fun c hc => isPrint_ne_zero (adjustString_printable b c hc)
+  have hlt := cstr_length_lt_of_hasNul b h
+  have hle := adjustString_length_le b
+  unfold adjustStringBuf
+  by_cases hz : 0 < (cstr b).length - (adjustString b).length
+  · exact cstr_append_zeros _ _ _ nz hz
+  · -- nothing was trimmed: the original terminator follows
+    have he : (cstr b).length - (adjustString b).length = 0 := by omega
+    simp only [he, zeros, List.replicate_zero, List.append_nil]
+    -- b.drop (cstr b).length starts with the NUL
+    have hd : ∃ t, b.drop (cstr b).length = 0 :: t := by
+      clear hz he hle nz
+      induction b with
+      | nil => simp [hasNul] at h
+      | cons x xs ih =>
+        unfold cstr
+        split
+        · rename_i hx; subst hx; exact ⟨xs, by simp⟩
+        · rename_i hx
+          have h' : hasNul xs = true := by
+            simp only [hasNul, List.any_cons, Bool.or_eq_true, decide_eq_true_eq] at h ⊢
+            rcases h with h | h
+            · exact absurd h hx
+            · simpa [hasNul] using h
+          have hlt' := cstr_length_lt_of_hasNul xs h'
+          obtain ⟨t, ht⟩ := ih h' hlt'
+          exact ⟨t, by simpa using ht⟩
+    obtain ⟨t, ht⟩ := hd
+    rw [ht, cstr_append_zero _ _ nz]
+
+/-! ## the table walks -/
+
+/-- the shared premise about the loaders: `test` is a function of the stream (built into the
+model's types), it only reads the stream, and its verdict does not depend on whether a title
+buffer is supplied -/
+def Premise (ls : List Loader) : Prop :=
+  ∀ l ∈ ls, ∀ s : Stream,
+    ((l.test s true).rc = 0 ↔ (l.test s false).rc = 0) ∧ ∀ w, (l.test s w).st.data = s.data
+
+/-- `test` never answers with a positive value -/
+def NonPos (ls : List Loader) : Prop :=
+  ∀ l ∈ ls, ∀ s w, (l.test s w).rc ≤ 0
+
+theorem rewind_eq_of_data {s s' : Stream} (h : s.data = s'.data) : s.rewind = s'.rewind := by
+  cases s; cases s'; simp_all [Stream.rewind]
+
+/-- Both walks select the same loader (or none): same table, same order, rewind before each probe. -/
+theorem walks_agree (e : Env) : ∀ (ls : List Loader), Premise ls →
+    ∀ (s s' : Stream) (buf : Bytes) (info : Option Info) (tr : Int), s.data = s'.data →
+      ((testWalk e ls s buf info).1 = 0 ↔ (loadWalk ls s' tr).2.1.isSome = true) ∧
+      ((testWalk e ls s buf info).1 = 0 ∨ (testWalk e ls s buf info).1 = eFormat)
+  | [], _, s, s', buf, info, tr, _ => by
+    simp [testWalk, loadWalk, eFormat, Gen.XMP_ERROR_FORMAT]
+  | l :: ls, hp, s, s', buf, info, tr, hd => by
+    have hl := hp l (by simp)
+    have hrest : Premise ls := fun x hx => hp x (by simp [hx])
+    have hr : s.rewind = s'.rewind := rewind_eq_of_data hd
+    obtain ⟨hrc, hdata⟩ := hl s'.rewind
+    unfold testWalk loadWalk
+    rw [hr]
+    by_cases h0 : (l.test s'.rewind true).rc = 0
+    · have h0' := hrc.mp h0
+      simp only [h0, h0', if_true]
+      split <;> simp
+    · have h0' : ¬ (l.test s'.rewind false).rc = 0 := fun h => h0 (hrc.mpr h)
+      simp only [h0, h0', if_false]
+      apply walks_agree e ls hrest
+      rw [hdata true, hdata false]
+
+theorem loadWalk_some_tr : ∀ (ls : List Loader) (s : Stream) (tr : Int),
+    (loadWalk ls s tr).2.1.isSome = true → (loadWalk ls s tr).1 = 0
+  | [], s, tr, h => by simp [loadWalk] at h
+  | l :: ls, s, tr, h => by
+    unfold loadWalk at h ⊢
+    split
+    · rfl
+    · rename_i h0
+      simp only [h0, if_false] at h
+      exact loadWalk_some_tr ls _ _ h
+
+theorem loadWalk_none_neg : ∀ (ls : List Loader), NonPos ls → ∀ (s : Stream) (tr : Int), tr < 0 →
+    (loadWalk ls s tr).2.1.isSome = false → (loadWalk ls s tr).1 < 0
+  | [], _, s, tr, htr, _ => by simpa [loadWalk] using htr
+  | l :: ls, hn, s, tr, _, h => by
+    unfold loadWalk at h ⊢
+    split
+    · rename_i h0; simp [h0] at h
+    · rename_i h0
+      simp only [h0, if_false] at h
+      have hle := hn l (by simp) s.rewind false
+      exact loadWalk_none_neg ls (fun x hx => hn x (by simp [hx])) _ _ (by omega) h
 
 end Xmp.TestLoad
